@@ -12,12 +12,15 @@ own outgoing ring behind a client that had stopped reading survived the time-out
 `C16_old_receiver_wedges`).
 
 What is left open (finding F8): the deadline is armed per socket read, and the
-receiver issues a read only when a whole read block of ring space is free.  A
+receiver issues a read whenever the incoming ring is not completely full (since
+8f682d1; before: only when a whole read block was free — finding F3, repaired).  A
 client that stops reading AND keeps sending until its writes block fills both
-rings; the receiver then waits for ring space, no read is pending, no deadline is
-armed: `C19_silence_counterexample` (the full statement "silence ends the
-connection" is false of the code), `C19_timeout_tears_down` is the partial one
-(hypothesis: the deadline fired, i.e. a read was pending).
+rings completely; the receiver then waits because the incoming ring is full, no
+read is pending, no deadline is armed: `C19_silence_counterexample` (the full
+statement "silence ends the connection" is false of the code),
+`C19_timeout_tears_down` is the partial one (hypothesis: the deadline fired, i.e.
+a read was pending — which it is whenever the incoming ring has room:
+`C16_receiver_reads_while_room`).
 -/
 import Mqtt.Model.KeepAlive
 import Mqtt.Model.Broker
@@ -123,7 +126,7 @@ ring, fair round-robin reaches within `rank` rounds a state in which nothing can
 
 Fairness: "round-robin" stands for "an enabled goroutine is eventually run"; no schedule takes more
 than `rank` steps (`C16_teardown_bounded`).  By `C16_read_failure_completes` (hence
-`C16_teardown_completes`, `C16_self_held_not_ended`, `C16_no_deadlock_partial`) and `C16_stop_once`. -/
+`C16_teardown_completes`, `C16_self_held_not_ended`, `C16_no_deadlock`) and `C16_stop_once`. -/
 theorem C19_timeout_tears_down (c : Cfg) (hw : WF c) (s0 : St) (h0 : Init c s0) (sched : List Label) :
     let s := reach c s0 sched
     s.sh.timeout = true → s.sh.extBlocked = false →
@@ -157,32 +160,35 @@ theorem C19_timeout_tears_down (c : Cfg) (hw : WF c) (s0 : St) (h0 : Init c s0) 
     rw [hxq] at h1; cases h1
 
 /-- the client answers its own traffic (4-byte packets answered with 12 bytes), stops reading and
-keeps sending: 16 bytes on the wire -/
+keeps sending: 5 packets, 20 bytes on the wire — one packet that the processor consumes plus a whole
+incoming ring (16 bytes) -/
 def floodInit : St :=
-  { sh := { stream := List.replicate 4 ⟨2, 4, .normal [.own 12]⟩, wire := 16, willFlag := true } }
+  { sh := { stream := List.replicate 5 ⟨2, 4, .normal [.own 12]⟩, wire := 20, willFlag := true } }
 
 /-- the receiver takes 8 bytes, the processor answers the first packet and parks in `WriteWait` for
-the answer to the second, the receiver takes the other 8 bytes (incoming ring: 12 of 16) and then
-waits for a read block of free space; the sender's write blocks -/
+the answer to the second (own outgoing ring: 12 of 16), the receiver takes another 8 bytes (incoming
+ring: 12 of 16) and the last 4 — all the free space there is — and then waits because the incoming
+ring is full (16 of 16); the sender's write blocks -/
 def floodSched : List Label :=
   [.env (.peerReads false), .th .recv 0, .th .recv 8, .th .recv 0] ++ List.replicate 11 (.th .proc 0) ++
-  [.th .recv 0, .th .recv 8, .th .recv 0, .th .send 0]
+  [.th .recv 0, .th .recv 8, .th .recv 0, .th .recv 0, .th .recv 8, .th .recv 0, .th .send 0]
 
 /-- **The full statement is false of the code** (finding F8, open): a reachable state of the
 repaired model — initial state `floodInit`, schedule `floodSched`, every step of which is taken — in
 which the client has sent everything it will ever send, and however long it stays silent nothing
-happens: the receiver waits for ring space, so no socket read is pending and the read deadline is
-not armed (`kaExpire` is not enabled); the processor is parked in the connection's own outgoing
-ring; the sender is blocked in its write.  The connection has not ended, is never torn down, its
-will is never published. -/
+happens: the receiver waits because the incoming ring is completely full (16 of 16 bytes: the
+packet the processor is working on and three more), so no socket read is pending and the read
+deadline is not armed (`kaExpire` is not enabled); the processor is parked in the connection's own
+outgoing ring; the sender is blocked in its write.  The connection has not ended, is never torn
+down, its will is never published. -/
 theorem C19_silence_counterexample :
     WF c0 ∧ Init c0 floodInit ∧
     (let s := reach c0 floodInit floodSched
      taken c0 floodInit floodSched = floodSched.length ∧ s.sh.wire = 0 ∧
-     s.recv = .space ∧ s.proc = .ownWait 12 [] ∧ s.send = .write 8 ∧ HeldBySelf s = true ∧
+     s.recv = .space ∧ s.sh.inR.buf = c0.cap ∧ s.proc = .ownWait 12 [] ∧ s.send = .write 8 ∧ HeldBySelf s = true ∧
      quiescent c0 s = true ∧ estep c0 s .kaExpire = none ∧ Ended s = false ∧ s.sh.effects = [] ∧
      ∀ sched, (∀ l, l ∈ sched → (∃ t k, l = .th t k) ∨ l = .env .kaExpire) → run c0 s sched = s) := by
-  refine ⟨c0_wf, ?_, by decide, by decide, by decide, by decide, by decide, by decide, by decide, by decide,
+  refine ⟨c0_wf, ?_, by decide, by decide, by decide, by decide, by decide, by decide, by decide, by decide, by decide,
     by decide, by decide, ?_⟩
   · refine ⟨rfl, rfl, rfl, rfl, rfl, rfl, rfl, rfl, rfl, ?_, ?_, rfl, rfl, rfl⟩
     · intro k hk; cases hk
